@@ -69,6 +69,16 @@ core_fields sendStored (c : C) : (sendStored c).s ~ { c.s with store := (sendSto
 @[simp] theorem sendStored_cfg (c : C) : (sendStored c).cfg = c.cfg := by
   rw [sendStored_eq]; simp
 
+/-- `resendStored` (fix 999e935) agrees with `sendStored` on every core field -/
+theorem resendStored_core (c : C) : (resendStored c).s.core = (sendStored c).s.core := by
+  rcases resendStored_eq c with h | h <;> rw [h]
+  exact sendPostProcess_core _
+core_fields resendStored (c : C) : (resendStored c).s ~ (sendStored c).s skip [] := resendStored_core c
+@[simp] theorem resendStored_cfg (c : C) : (resendStored c).cfg = c.cfg := by
+  rcases resendStored_eq c with h | h <;> rw [h] <;> simp
+@[simp] theorem resendStored_pubs (c : C) : pubs (resendStored c).ev = pubs (sendStored c).ev := by
+  rcases resendStored_eq c with h | h <;> rw [h] <;> simp
+
 /-! ## `process_send_v5_0_publish` -/
 
 theorem psV5PublishAlias_core (c : C) (p : Pkt) (rel : Option Nat) (v : Bool) :
